@@ -23,7 +23,7 @@ N = 0xFFFFFFFFFFFFFFFFFFFFFFFFFFFFFFFEBAAEDCE6AF48A03BBFD25E8CD0364141
 
 
 def _msgs(rng):
-    base = ["", "a", "hello", "é", "€uro", "𝔘nicode 😀", "x" * 252, "x" * 253, "x" * 251 + "é", "é" * 126, "é" * 127, "€" * 84, "€" * 85,
+    base = ["", "a", "hello", "é", "€uro", "cafe\u0301", "A\u030a \u212b \u2126 \u212a", "\ufb01 \u2460 \uf900", "e\u0301" * 100, "𝔘nicode 😀", "x" * 252, "x" * 253, "x" * 251 + "é", "é" * 126, "é" * 127, "€" * 84, "€" * 85,
             "x" * 65535, "x" * 65536, "y" * 70000, "é" * 35000]
     for _ in range(12):
         n = rng.choice([1, 5, 30, 100, 250, 300])
@@ -41,7 +41,8 @@ def cases(tier, rng):
     # rejection stream (valid ones mixed in)
     for j in range(250 if tier == "quick" else 8000):
         key = rng.randrange(1, N); msg = rng.choice(msgs[:14] + ["m%d" % j])
-        mut = rng.choice(["none", "flip_r", "flip_s", "hdr", "hdr35", "hdr26", "hdr_any", "random", "other_msg", "other_addr", "flip_class", "s_neg"])
+        mut = rng.choice(["none", "flip_r", "flip_s", "hdr", "hdr35", "hdr26", "hdr_any", "hdr_plus2", "hdr_plus2", "small_r", "random", "other_msg",
+                          "other_addr", "flip_class", "s_neg"])
         yield {"k": "rej", "net": rng.choice(["mainnet", "testnet"]), "key": key, "msg": msg, "comp": rng.random() < 0.5, "mut": mut,
                "bit": rng.randrange(256), "h": rng.randrange(256), "rnd": rand_hex(rng, 65)}
 
@@ -78,6 +79,8 @@ def _triple(d):
     elif m == "hdr35": sig[0] = 35
     elif m == "hdr26": sig[0] = 26
     elif m == "hdr_any": sig[0] = d["h"]
+    elif m == "hdr_plus2": sig[0] = sig[0] + 2 if (sig[0] - 27) % 4 < 2 else sig[0] - 2        # the "second key" recovery ids
+    elif m == "small_r": sig[1:33] = (int.from_bytes(sig[1:33], "big") % (2 ** 120)).to_bytes(32, "big"); sig[0] = 27 + (d["h"] % 8)
     elif m == "random": sig = bytearray.fromhex(d["rnd"])
     elif m == "other_msg": msg = msg + "!"
     elif m == "other_addr": addr = _ref_addr(dict(d, key=(d["key"] % (N - 1)) + 1))
